@@ -5,6 +5,7 @@ import (
 	"go/constant"
 	"go/token"
 	"go/types"
+	"strings"
 
 	"golang.org/x/tools/go/ssa"
 
@@ -191,7 +192,11 @@ func checkC09(c *Ctx) {
 	c.checkOfflineInfoSkipsOrigin()
 	c.checkOfflineInfoReaders()
 	c.checkPublisherMarksAfterSave()
-	c.checkIntersect()
+	// of the module-wide intersection census only the predicates this property depends on: read
+	// and recv receipts need R, typing needs W, the offline relay needs P
+	c.R.Scoped(func(rule, construct string) bool {
+		return strings.HasPrefix(construct, "IsReader()") || strings.HasPrefix(construct, "IsWriter()") || strings.HasPrefix(construct, "IsPresencer()")
+	}, c.checkIntersect)
 
 	// (4) fan-out
 	fo := c.checkFanoutCommon("C09.4")
@@ -200,7 +205,7 @@ func checkC09(c *Ctx) {
 	// (5) reporting clamp: wherever RecvSeqId of a description is set from cached marks it is max(recv, read)
 	c.checkReportClamp()
 	// each recipient gets its own copy of the {info} payload (it is renamed per recipient)
-	c.checkMessageCopyIsDeep()
+	c.R.Scoped(func(rule, construct string) bool { return strings.Contains(construct, "Info") }, c.checkMessageCopyIsDeep)
 }
 
 func valDesc(v ssa.Value, seqName string) string {
